@@ -203,7 +203,8 @@ def explore(ctx):
         e2e = [l for l in lines if l.startswith("e2e ")]
         if not ctx.get("replay"):
             for k in range({"quick": 24, "thorough": 300, "search": 60}[tier]):
-                arg = rng.choice(["-", "n", mp.vtext(mp.gen_value(rng, 2)), mp.vtext([1, mp.gen_value(rng, 1)])])
+                # (integer map keys msgpackzip cannot round-trip are C06's known finding about the dependency: kept out of here)
+                arg = rng.choice(["-", "n", mp.vtext(mp.zip_safe(mp.gen_value(rng, 2))), mp.vtext([1, mp.zip_safe(mp.gen_value(rng, 1))])])
                 e2e.append("e2e e%d ctype=%d arg=%s res=- err=- method=%s" % (k, rng.choice([1, 2, 1, 2, 3, 0]), arg, rng.choice(["missing", "noproto"])))
         t2, tie2 = C.run_both(ctx, "TestVerifC06", e2e, go_timeout=900)
         triples += t2
